@@ -56,7 +56,15 @@ def run(ctx, replay=None):
             a = [[-6, 0], [-3, 3]]
         else:
             a = obs.random_area(rng, fname, maxext=3 if ctx.quick else 4)
-        jobs.append(dict(kind='obs', rec_id=k, fname=fname, area_json=a, st_json=st, want=WANT + ['C06'], seed=rng.randrange(2 ** 31)))
+        jobs.append(dict(kind='obs', rec_id=len(jobs), fname=fname, area_json=a, st_json=st, want=WANT + ['C06'], seed=rng.randrange(2 ** 31)))
+        boxes = [(y, x) for y, row in enumerate(st['grid']) for x, o in enumerate(row) if o['t'] == 'Box']
+        if boxes:
+            # a state that python equality cannot tell from the previous one (box contents are not compared), observed right after it
+            import json as _json
+            st2 = _json.loads(_json.dumps(st))
+            for (y, x) in boxes:
+                st2['grid'][y][x] = steps.O('Box', 0, 'NONE', rng.choice([steps.O('Floor'), steps.O('Key', 0, 'BLUE'), steps.O('Wall')]))
+            jobs.append(dict(kind='obs', rec_id=len(jobs), fname=fname, area_json=a, st_json=st2, want=WANT + ['C06'], seed=rng.randrange(2 ** 31)))
     oc.run_obs_part(ctx, 'random', jobs, PREFIX)
     # areas outside the functions' domain must not produce an observation silently different: they raise
     ctx.cov['exhaustive'] = True
